@@ -266,7 +266,8 @@ class SyncObj(object):
         self.__commandsWaitingCommit = collections.defaultdict(list)  # logID => [(termID, callback), ...]
         # request ids of forwarded commands must not repeat after a restart: a reply to a request of an
         # earlier run would be taken for the reply to a new request with the same id
-        self.__commandsLocalCounter = random.getrandbits(48)
+        # (not from the global generator: an application that seeds it gets the same ids in every run)
+        self.__commandsLocalCounter = random.SystemRandom().getrandbits(48)
         self.__commandsWaitingReply = {}  # commandLocalCounter => callback
 
         self.__properies = set()
